@@ -7,9 +7,11 @@ unit of fuel per scanner call.  The byte classes it uses are regenerated from ps
 -/
 import PdfVerif.Lemmas.LexerPos
 import PdfVerif.Lemmas.LexerErr
+import PdfVerif.Lemmas.LexCompose
+import PdfVerif.Lemmas.LexScanTie
 
 namespace PdfVerif.Props.C14
-open PdfVerif PdfVerif.Lexer PdfVerif.Gen.LexTables
+open PdfVerif PdfVerif.Lexer PdfVerif.Gen.LexTables PdfVerif.Gen.LexScan
 
 /-- The buffered tokenizer equals the buffer-free byte automaton, for every buffer size ≥ 1. -/
 theorem C14_run_eq_spec (b : Nat) (hb : 1 ≤ b) (data : Bytes) : run b data = some (specLex data) := by
@@ -105,6 +107,92 @@ def mainHitCode (c : UInt8) : Nat :=
 theorem C14_dispatch_tied :
     (∀ c : UInt8, (mainHitCode c == dispatchOf MAIN_DISPATCH c) = true) ∧ kwTrue = KW_TRUE ∧ kwFalse = KW_FALSE :=
   ⟨forall_byte _ (by decide +kernel), by decide, by decide⟩
+
+/-! ### every scanner body is tied to the code regenerated from psparser.py (`Gen/LexScan.lean`) -/
+
+/-- For EVERY parser state, byte and position, what the hand model does at the byte a scanner stops at
+    (`parseMainHit … parseHexstringHit`, dispatched by `atHit`) is the interpretation of that scanner's
+    body as translated from `PSBaseParser._parse_*` on this run (conditions, attribute updates, tokens
+    added, `return k` vs `return k + 1`, escaping ValueError).  An edit of the straight-line code of any
+    of the thirteen scanners changes `Gen/LexScan.lean` and breaks this proof. -/
+theorem C14_scanners_tied (st : St) (c : UInt8) (j : Nat) : atHit st c j = genAtHit st c j :=
+  atHit_eq_gen st c j
+
+/-- The regex every scanner searches the buffer with is the one in its regenerated preamble. -/
+theorem C14_search_tied (m : Mode) : searchClass m = ((scnOfMode m).bind searchRe).map clsFn :=
+  searchClass_eq_gen m
+
+/-- One whole scanner call `self._parse1(buf, charpos)` of the hand model (search, bytes appended to
+    `_curtoken`, body, returned index) equals the call assembled from regenerated parts only; through
+    `C14_run_eq_spec` every theorem of this file is therefore about the regenerated scanners. -/
+theorem C14_call_tied (st : St) (rest : Bytes) (pos : Nat) : call st rest pos = genCall st rest pos :=
+  call_eq_gen st rest pos
+
+/-- Non-vacuity: the regenerated `_parse_string_1` closes a three-digit octal escape with overflow,
+    the regenerated `_parse_literal` call stops at `#`. -/
+example : (genAtHit { mode := .string1, cur := [97], oct := [55, 55, 55] } 41 5).st.cur = [97, 255] := by decide +kernel
+example : (genCall { mode := .literal, cur := [65] } [66, 35, 52] 7).st.mode = .literalHex ∧
+    (genCall { mode := .literal, cur := [65] } [66, 35, 52] 7).pos = 9 := by decide +kernel
+
+/-! ### compositionality: token VALUES of a concatenation (the C05 contents-splitting clause relies on it) -/
+
+/-- Once the lexer is back in the main scanner after `pre` (e.g. `pre` ends with a delimiter-closed token
+    or with white space), the rest is tokenised as a fresh input: same token values, positions shifted
+    by `|pre|`.  All byte strings, no size bound. -/
+theorem C14_compositional_main (pre b : Bytes) (hm : modeAfter pre = .main) :
+    specLex (pre ++ b) = specLex pre ++ shiftToks pre.length (specLex b) :=
+  specLex_append_main pre b hm
+
+/-- Compositionality with a white-space separator: when `a` ends in a complete token (the lexer is not
+    inside a string, a hexadecimal string or a comment and not behind a lone `<`: `Complete`), then for
+    every non-empty run `ws` of white-space bytes (every byte of the regenerated SPC table: NUL HT LF VT
+    FF CR SP) and every `b`, the tokens of `a ++ ws ++ b` are exactly the tokens of `a` followed by the
+    tokens of `b`, shifted by `|a| + |ws|`. -/
+theorem C14_compositional (a ws b : Bytes) (hc : Complete (modeAfter a) = true)
+    (hne : ws ≠ []) (hws : ∀ c ∈ ws, isSPC c = true) :
+    specLex (a ++ ws ++ b) = concatLex a ws b :=
+  specLex_append_ws a ws b hc hne hws
+
+/-- The same for the buffered tokenizer at every buffer size. -/
+theorem C14_compositional_run (n : Nat) (hn : 1 ≤ n) (a ws b : Bytes) (hc : Complete (modeAfter a) = true)
+    (hne : ws ≠ []) (hws : ∀ c ∈ ws, isSPC c = true) :
+    run n (a ++ ws ++ b) = some (concatLex a ws b) := by
+  rw [C14_run_eq_spec n hn, C14_compositional a ws b hc hne hws]
+
+/-- Any number of pieces (the content streams of a page, C05): when every piece but the last ends in a
+    complete token, the token values of the pieces joined by a white-space separator are the token values
+    of the pieces, one after the other. -/
+theorem C14_compositional_list (ws : Bytes) (hne : ws ≠ []) (hws : ∀ c ∈ ws, isSPC c = true) :
+    ∀ parts : List Bytes, (∀ p ∈ parts.dropLast, Complete (modeAfter p) = true) →
+      tokValues (specLex (joinWith ws parts)) = (parts.map (fun p => tokValues (specLex p))).flatten
+  | [], _ => by
+    have h : specLex [] = [] := by decide +kernel
+    simp [joinWith, h, tokValues]
+  | [a], _ => by simp [joinWith]
+  | a :: b :: r, h => by
+    have ih := C14_compositional_list ws hne hws (b :: r) (fun p hp => h p (by simp [List.dropLast] at hp ⊢; exact Or.inr hp))
+    have ha := h a (by simp [List.dropLast])
+    simp only [joinWith]
+    rw [C14_compositional a ws _ ha hne hws]
+    simp only [concatLex, tokValues, shiftToks, List.map_append, List.map_map, List.map_cons, List.flatten_cons] at ih ⊢
+    rw [← ih]
+    simp [Function.comp_def]
+
+/-- The hypothesis cannot be dropped: inside a literal string the separator and what follows belong to
+    the string. -/
+theorem C14_compositional_open_cex :
+    Complete (modeAfter [40, 97]) = false ∧ specLex ([40, 97] ++ [32] ++ [41, 49]) ≠ concatLex [40, 97] [32] [41, 49] := by
+  decide +kernel
+
+/-- Non-vacuity: `/A#4` (pending name escape) + NUL CR + `(x)12`; `12` + LF + `0 R`. -/
+example : Complete (modeAfter [47, 65, 35, 52]) = true ∧ (∀ c ∈ ([0, 13] : Bytes), isSPC c = true) ∧
+    specLex ([47, 65, 35, 52] ++ [0, 13] ++ [40, 120, 41, 49, 50])
+      = [(0, .lit [65, 4]), (6, .str [120]), (9, .int 12)] := by decide +kernel
+example : Complete (modeAfter [49, 50]) = true ∧ concatLex [49, 50] [10] [48, 32, 82]
+    = [(0, .int 12), (3, .int 0), (5, .kwd [82])] := by decide +kernel
+example : tokValues (specLex (joinWith [10] [[49, 50], [47, 65, 35, 52], [40, 120, 41]]))
+    = [.int 12, .lit [65, 4], .str [120]] := by decide +kernel
+example : modeAfter [60, 52, 49, 62] = .wclose ∧ modeAfter [40, 97, 41] = .main := by decide +kernel
 
 /-- Non-vacuity: a literal string with a backslash-CR-LF continuation split by the buffer boundary,
     an over-long octal escape and a `#xx` name, at buffer sizes 1, 3 and 4096. -/
